@@ -203,6 +203,26 @@ impl Runner {
         })
     }
 
+    /// The resources of each active key's certificate, one entry per class.
+    pub fn held_certs(&self, inst: usize, ca: &str) -> Vec<ResourceSet> {
+        hooks::with_faults_suspended(|| {
+            let i = self.world.inst(inst);
+            if !i.is_up() {
+                return Vec::new()
+            }
+            let Ok(ca) = i.rt().ca_manager().get_ca(&handle(ca)) else {
+                return Vec::new()
+            };
+            let info = ca.as_ca_info();
+            let Ok(value) = serde_json::to_value(&info.resource_classes) else {
+                return Vec::new()
+            };
+            let mut out = Vec::new();
+            collect_active(&value, &mut |res| out.push(res.clone()));
+            out
+        })
+    }
+
     /// Number of resource classes with an active key.
     pub fn class_count(&self, inst: usize, ca: &str) -> usize {
         self.class_infos(inst, ca).iter()
@@ -786,8 +806,10 @@ impl Runner {
         // Model verdict: removals first, then additions.
         let predicted;
         let mut next = None;
+        let mut undecided = false;
         if let Some(mca) = self.model.ca(inst, ca) {
             let held = self.held_set(inst, ca).unwrap_or_default();
+            let certs = self.held_certs(inst, ca);
             let mut desired = mca.roas.clone();
             let mut ok = true;
             for spec in remove {
@@ -805,6 +827,9 @@ impl Runner {
                     ok = false;
                 }
                 else if let Some(comment) = compare.get(&key) {
+                    if !certs.iter().any(|c| c.contains(&spec.pfx.to_set())) {
+                        undecided = true;
+                    }
                     if comment == &spec.comment {
                         ok = false; // duplicate
                     }
@@ -818,11 +843,16 @@ impl Runner {
                     }
                 }
                 else {
+                    if !certs.iter().any(|c| c.contains(&spec.pfx.to_set())) {
+                        // Held only as the union of several certificates:
+                        // the statement does not say; no verdict.
+                        undecided = true;
+                    }
                     desired.insert(key.clone(), spec.comment.clone());
                     compare.insert(key, spec.comment.clone());
                 }
             }
-            predicted = Some(ok);
+            predicted = if undecided && ok { None } else { Some(ok) };
             if ok {
                 next = Some(desired);
             }
@@ -1031,9 +1061,14 @@ impl Runner {
             "aspa_providers", predicted, &result,
             &format!("ca {ca} customer {customer} +{added:?} -{removed:?}")
         );
-        self.check_audit(
-            inst, ca, "aspa_providers", audit_before, &result, providers_noop
-        );
+        // An update that changes nothing may still be recorded by Krill
+        // when the stored provider list was not sorted (the comparison is
+        // on the sorted list); only effective updates are judged.
+        if !providers_noop {
+            self.check_audit(
+                inst, ca, "aspa_providers", audit_before, &result, false
+            );
+        }
         match &result {
             Ok(()) => {
                 self.state_changing_ops += 1;
